@@ -17,11 +17,14 @@ Consequences for every endpoint name and caller
 * `untrusted_only_handshake`, `open_exactly_handshake`, `closed_refused_to_all_remote`
 Trust
 * `raft_trusts_everyone`, `crdt_trust_semantics` (induction over the call list), `crdt_self_trusted`
+* `trustOf_eq_parse` (whatever sequence of Default / LoadJSON / ApplyEnvVars produced it, the crdt configuration is
+  the parse of the list in effect), `env_list_restricts`, `env_list_restricts_trust`, `star_iff_trust_all`,
+  `tojson_reflects_trust`, `cfg_model_meets_spec`
 * `untrusted_updates_ignored` (induction over the delivered messages)
 The model meets the property, for every input
 * `rpc_model_meets_spec`, `trust_model_meets_spec`, `rep_model_meets_spec`
 The Bool checkers say what the statement says
-* `rpcHolds_iff`, `trustHolds_iff`, `repHolds_iff`
+* `rpcHolds_iff`, `trustHolds_iff`, `cfgHolds_iff`, `repHolds_iff`
 -/
 namespace CV.C07
 
@@ -101,20 +104,20 @@ example : ¬ (∀ ep, authorizeWith { Gen.closure with dflt := .allow } Gen.poli
 /-! ## trust -/
 
 /-- Raft: every peer is trusted, whatever was configured or called. -/
-theorem raft_trusts_everyone (raw : List (Option Nat)) (ops : List TOp) (self p : Nat) :
-    trustedAfter Gen.raft raw ops self p = true := by
-  simp [trustedAfter, isTrusted, Gen.raft, evalFinal]
+theorem raft_trusts_everyone (cfg : TrustCfg) (ops : List TOp) (self p : Nat) :
+    trustedAfterCfg Gen.raft cfg ops self p = true := by
+  simp [trustedAfterCfg, isTrusted, Gen.raft, evalFinal]
 
-/-- CRDT: a remote peer is trusted iff '*' is listed, or the last Trust/Distrust call about it was
-    a Trust, or there was no such call and it is listed. For every configuration and call list. -/
+/-- CRDT, from a loaded list: a remote peer is trusted iff '*' is listed, or the last Trust/Distrust call
+    about it was a Trust, or there was no such call and it is listed. For every list and call list. -/
 theorem crdt_trust_semantics (raw : List (Option Nat)) (ops : List TOp) (self p : Nat) (hp : p ≠ self) :
-    trustedAfter Gen.crdt raw ops self p = specTrusted { mode := .crdt, raw := raw, ops := ops } p := by
+    trustedAfter Gen.crdt raw ops self p = (starListed raw || (lastCall ops p).getD (listedIn raw p)) := by
   have hps : (p == self) = false := by simpa using hp
   have hshape : ∀ (cfg : TrustCfg) (set : List Nat),
       isTrusted Gen.crdt cfg self set p = (cfg.trustAll || set.contains p) := by
     intro cfg set
     simp [isTrusted, Gen.crdt, evalGuard, evalFinal, hps]
-  unfold trustedAfter specTrusted stateAfter
+  unfold trustedAfter trustedAfterCfg stateAfter
   simp only [parseTrusted_eq, List.reverse_nil, List.nil_append]
   rw [hshape, contains_after_calls Gen.crdt rfl rfl]
   by_cases hs : raw.contains none = true
@@ -129,21 +132,88 @@ theorem crdt_trust_semantics (raw : List (Option Nat)) (ops : List TOp) (self p 
     simp only [hs, Bool.false_eq_true, if_false, Bool.false_or, hs', hinit]
 
 /-- CRDT: a peer always trusts itself. -/
-theorem crdt_self_trusted (raw : List (Option Nat)) (ops : List TOp) (self : Nat) :
-    trustedAfter Gen.crdt raw ops self self = true := by
-  simp [trustedAfter, isTrusted, Gen.crdt, evalGuard]
+theorem crdt_self_trusted (cfg : TrustCfg) (ops : List TOp) (self : Nat) :
+    trustedAfterCfg Gen.crdt cfg ops self self = true := by
+  simp [trustedAfterCfg, isTrusted, Gen.crdt, evalGuard]
+
+/-! ### from the configuration sources to TrustAll / TrustedPeers -/
+
+/-- Whatever sequence of Default / LoadJSON / ApplyEnvVars produced it, the crdt configuration is the
+    parse of the list in effect (file replaces, environment overrides, defaults are "*"). -/
+theorem trustOf_eq_parse (srcs : List Source) :
+    modelCfg srcs = parseTrusted (effectiveList srcs) [] := by
+  have h := foldl_cfgStep_parse Gen.cfgShape (by decide) (by decide) (by decide) srcs []
+  exact h
+
+/-- After an environment list without '*', TrustAll is off and exactly the listed peers are configured,
+    whatever was loaded before (defaults with TrustAll, a file with "*", …). -/
+theorem env_list_restricts (pre : List Source) (raw : List (Option Nat)) (hs : starListed raw = false) :
+    modelCfg (pre ++ [.env (some raw)]) = { trustAll := false, listed := raw.filterMap id } := by
+  rw [trustOf_eq_parse]
+  have : effectiveList (pre ++ [.env (some raw)]) = raw := by
+    simp [effectiveList, List.foldl_append, effStep]
+  rw [this, parseTrusted_nostar hs]
+
+/-- … so exactly the listed peers are trusted by a component started with it (remote peers, before any call). -/
+theorem env_list_restricts_trust (pre : List Source) (raw : List (Option Nat)) (hs : starListed raw = false)
+    (self p : Nat) (hp : p ≠ self) :
+    trustedAfterCfg Gen.crdt (modelCfg (pre ++ [.env (some raw)])) [] self p = listedIn raw p := by
+  have hl : effectiveList (pre ++ [.env (some raw)]) = raw := by
+    simp [effectiveList, List.foldl_append, effStep]
+  have h := crdt_trust_semantics raw [] self p hp
+  rw [trustOf_eq_parse, hl]
+  simpa [trustedAfter, hs, lastCall] using h
+
+/-- TrustAll is on exactly when '*' is in the list in effect. -/
+theorem star_iff_trust_all (srcs : List Source) :
+    (modelCfg srcs).trustAll = starListed (effectiveList srcs) := by
+  rw [trustOf_eq_parse]
+  cases h : starListed (effectiveList srcs) with
+  | true => rw [parseTrusted_star h]
+  | false => rw [parseTrusted_nostar h]
+
+/-- What ToJSON prints describes the trust in effect: loading it back gives the same configuration. -/
+theorem tojson_reflects_trust (srcs : List Source) :
+    parseTrusted (toJSONTrust (modelCfg srcs)) [] = modelCfg srcs ∧
+    (starListed (toJSONTrust (modelCfg srcs)) = (modelCfg srcs).trustAll) := by
+  rw [trustOf_eq_parse]
+  refine ⟨parse_toJSON _, ?_⟩
+  cases h : starListed (effectiveList srcs) with
+  | true => rw [parseTrusted_star h]; rfl
+  | false =>
+    rw [parseTrusted_nostar h]
+    simp only [toJSONTrust, Bool.false_eq_true, if_false, starListed]
+    exact contains_none_map_some _
+
+/-- The model's configuration satisfies the configuration clause, for every source sequence. -/
+theorem cfg_model_meets_spec (srcs : List Source) :
+    cfgHolds srcs (modelCfg srcs).trustAll (modelCfg srcs).listed = true := by
+  unfold cfgHolds cfgClauses
+  rw [trustOf_eq_parse]
+  cases h : starListed (effectiveList srcs) with
+  | true => rw [parseTrusted_star h]; simp [h]
+  | false => rw [parseTrusted_nostar h]; simp [h, sameSetNat_refl]
+
+/-- The seeded defect as a shape: had `applyJSONConfig` not reset TrustAll, an environment list over the
+    defaults would leave everyone trusted. -/
+example : (trustOf { Gen.cfgShape with applyResetsTrustAll := false, loadResetsTrustAll := true }
+    [.default, .env (some [some 1])]).trustAll = true := by decide
 
 /-- The model's trust decision is the statement's, in both modes. -/
 theorem modelTrusted_eq_spec (ts : TrustSetting) (self p : Nat) (hp : p ≠ self) :
     modelTrusted ts self p = specTrusted ts p := by
-  obtain ⟨mode, raw, ops⟩ := ts
+  obtain ⟨mode, srcs, ops⟩ := ts
   cases mode with
   | raft => simp [modelTrusted, shapeOf, raft_trusts_everyone, specTrusted]
-  | crdt => simpa [modelTrusted, shapeOf] using crdt_trust_semantics raw ops self p hp
+  | crdt =>
+    have h := crdt_trust_semantics (effectiveList srcs) ops self p hp
+    simp only [modelTrusted, shapeOf, trustOf_eq_parse, specTrusted, TrustSetting.raw]
+    exact h
 
-example : specTrusted { mode := .crdt, raw := [some 1, some 2], ops := [.distrust 1, .trust 3] } 1 = false ∧
-    specTrusted { mode := .crdt, raw := [some 1, some 2], ops := [.distrust 1, .trust 3] } 3 = true ∧
-    specTrusted { mode := .crdt, raw := [some 1, none], ops := [.distrust 1] } 1 = true := by decide
+example : specTrusted { mode := .crdt, srcs := [.load [some 1, some 2]], ops := [.distrust 1, .trust 3] } 1 = false ∧
+    specTrusted { mode := .crdt, srcs := [.load [some 1, some 2]], ops := [.distrust 1, .trust 3] } 3 = true ∧
+    specTrusted { mode := .crdt, srcs := [.load [some 1, none]], ops := [.distrust 1] } 1 = true ∧
+    specTrusted { mode := .crdt, srcs := [.default, .env (some [some 1])], ops := [] } 2 = false := by decide
 
 /-- CRDT: updates that the topic validator rejects leave the pinset unchanged, however many are delivered. -/
 theorem untrusted_updates_ignored (cfg : TrustCfg) (self : Nat) (set pins : List Nat) (ms : List Msg)
@@ -225,7 +295,7 @@ theorem rpc_model_meets_spec (i : RpcInput) (hk : i.kind ≠ .custom) :
           · simp [hl]
   · simp [hap]
 
-example : rpcApplies ⟨.shipped, true, ⟨.crdt, [some 1], []⟩, 0, .remote 2, "Cluster.Pin", true⟩ = true := by decide
+example : rpcApplies ⟨.shipped, true, ⟨.crdt, [.load [some 1]], []⟩, 0, .remote 2, "Cluster.Pin", true⟩ = true := by decide
 
 /-- IsTrustedPeer: the model's answer is the statement's for every remote peer. -/
 theorem trust_model_meets_spec (i : TrustInput) : trustHolds i (modelTrusted i.ts i.self i.p) = true := by
@@ -258,7 +328,7 @@ theorem rep_model_meets_spec (i : RepInput) (hm : i.ts.mode = .crdt) : repHolds 
       | false => rfl
     have := modelTrusted_eq_spec i.ts i.self m.signer hne
     rw [hsp] at this
-    simp only [modelTrusted, trustedAfter, hm, shapeOf] at this
+    simp only [modelTrusted, trustedAfterCfg, hm, shapeOf] at this
     simp only [hm, shapeOf, accepts, Gen.crdt]
     exact this
 
@@ -319,6 +389,40 @@ theorem trustHolds_iff (i : TrustInput) (o : Bool) :
     by_cases hp : i.p = i.self
     · exact Or.inl hp
     · exact Or.inr (h hp)
+
+/-- `cfgHolds` read as a proposition. -/
+theorem cfgHolds_iff (srcs : List Source) (ta : Bool) (peers : List Nat) :
+    cfgHolds srcs ta peers = true ↔
+      (ta = starListed (effectiveList srcs) ∧
+       (starListed (effectiveList srcs) = false → ∀ x, x ∈ peers ↔ some x ∈ effectiveList srcs)) := by
+  unfold cfgHolds cfgClauses
+  simp only [List.all_cons, List.all_nil, Bool.and_true, Bool.and_eq_true, beq_iff_eq, Bool.or_eq_true]
+  constructor
+  · rintro ⟨h1, h2⟩
+    refine ⟨h1, fun hs x => ?_⟩
+    rcases h2 with h2 | h2
+    · rw [hs] at h2; exact absurd h2 (by decide)
+    · simp only [sameSetNat, Bool.and_eq_true, List.all_eq_true, List.contains_eq_mem, decide_eq_true_eq] at h2
+      constructor
+      · intro hx
+        have := h2.1 x hx
+        simpa [List.mem_filterMap] using this
+      · intro hx
+        exact h2.2 x (by simpa [List.mem_filterMap] using hx)
+  · rintro ⟨h1, h2⟩
+    refine ⟨h1, ?_⟩
+    cases hs : starListed (effectiveList srcs) with
+    | true => exact Or.inl rfl
+    | false =>
+      right
+      simp only [sameSetNat, Bool.and_eq_true, List.all_eq_true, List.contains_eq_mem, decide_eq_true_eq]
+      constructor
+      · intro x hx
+        have := (h2 hs x).1 hx
+        simpa [List.mem_filterMap] using this
+      · intro x hx
+        have : some x ∈ effectiveList srcs := by simpa [List.mem_filterMap] using hx
+        exact (h2 hs x).2 this
 
 /-- `repHolds` read as a proposition. -/
 theorem repHolds_iff (i : RepInput) (after : List Nat) :
